@@ -14,7 +14,7 @@
    Validity of a version (vvalid) and its derived bytes are data of each operation: all theorems
    quantify over them. *)
 From Coq Require Import List ZArith String Bool.
-From NIC Require Import Base.SMap Secrets.Model Secrets.Spec Secrets.ProofsNames Secrets.Proofs Secrets.ProofsMore Secrets.ProofsCtl.
+From NIC Require Import Base.SMap Secrets.Model Secrets.Spec Secrets.ProofsNames Secrets.Proofs Secrets.ProofsMore Secrets.ProofsCtl Secrets.ProofsPath.
 Import ListNotations.
 
 (* Every file in the secrets directory, after every admissible history, is the derivation of the
@@ -210,6 +210,25 @@ Theorem C11_spec_decides :
   forall (g : ghost) (d : disk) (k : string), key_ok g d k = true <-> key_files_exact g d k.
 Proof. exact key_ok_iff. Qed.
 Print Assumptions C11_spec_decides.
+
+(* Every reference handed out after an admissible history names only files derived from the very
+   Secret it refers to (nothing, ns-name, or the two CA files of ns-name) -- although the Configurator
+   overwrites Path inside the store's own reference for Ingress JWT / basic-auth annotations
+   (masters, minions and plain Ingresses, each with its OWN namespace). *)
+Theorem C11_reference_names_own_files :
+  forall (cadel : bool) (U : string -> Prop) (h : list op) (k : string) (st' : state) (p : string) (e : bool),
+    hist_ok cadel U gempty h -> Forall force_ok h ->
+    step cadel (run cadel h) (Get k) = (st', Some (p, e)) -> path_ok k p = true.
+Proof. exact reference_names_own_files. Qed.
+Print Assumptions C11_reference_names_own_files.
+
+(* the path the Configurator forces onto the reference of an annotated Ingress in namespace ns is
+   the file name of the Secret ns/name *)
+Theorem C11_forced_path_is_own :
+  forall (cadel : bool) (h : list op) (ns name : string) (st' : state) (p : string) (e : bool),
+    step cadel (run cadel h) (ForcePath ns name) = (st', Some (p, e)) -> p = fname ns name.
+Proof. exact force_names_own_file. Qed.
+Print Assumptions C11_forced_path_is_own.
 
 (* ---- the controller in front of the store (createSecretHandlers, work queue, syncSecret) ----
    crun cinit h   a cluster-level history h (object created/updated, deleted, worker drains the
